@@ -14,11 +14,11 @@ _T = "symbolic execution of the real NumPy code over exact reals (normal form + 
 _N = "real-number semantics (no rounding); z3 verdicts; sympy normal forms; stubs and assumptions listed in the evidence"
 def _add(pid, text, ref=None, tech=_T, note=_N, eng=E1):
     CHECKS[pid] = (eng, tech, text, note, ref or f"3/{pid}")
-_add("C02", "bounded symbolic verification of every isometry constructor: form preservation, distance preservation, orientation, closure under composition/inverse by one inductive step; polynomial constructors n<=3/4, find_isometry family n<=2 with a nondeterministic null-space stub")
+_add("C02", "bounded symbolic verification of every isometry constructor: form preservation, distance preservation, orientation, closure under composition/inverse by one inductive step; polynomial constructors n<=3/4; origin_to, timelike_to, spacelike_to, reflection_across, TangentVector.origin_to in H^2 with a nondeterministic null-space stub (Gram-Schmidt-exhaustive parametrisation)")
 _add("C03", "bounded symbolic verification of the group-action laws (associativity, identity, inverse, type, shape, representation boundary) for all 15 object classes with symbolic invertible matrices, ambient dimension 3 (quick) / 2..4 (thorough), real and complex")
 _add("C05", "bounded symbolic verification: all words over {a,b,A,B} up to length 4 (quick) / 5 (thorough) with symbolic invertible generator matrices; every derived representation against an independent reference; Fox fundamental formula and cocycle annihilation")
-_add("C16", "bounded symbolic verification of chart conversions (real and complex, dimensions 1..3 / 1..5), chart membership path analysis, affine maps, subspace intersection with a null-space stub")
-_add("C17", "bounded symbolic verification: homomorphism / identity / determinant / invariant-form identities for sl2_irrep (n<=6), sl2_to_so21, gln/sln adjoint (n<=3), slc_to_slr, sl2c_to_so31, block_include and the lie.hom wrappers, single matrices and stacks")
+_add("C16", "bounded symbolic verification of chart conversions (real and complex, dimensions 1..3 / 1..5), chart membership path analysis, affine maps, subspace intersection with a null-space stub, eigenvector / diagonalize with an eigen stub (real, complex-pair and composite)")
+_add("C17", "bounded symbolic verification: homomorphism / identity / determinant / invariant-form / definedness identities for sl2_irrep (n<=6), sl2_to_so21, gln/sln adjoint (n<=3), slc_to_slr, sl2c_to_so31, block_include and the lie.hom wrappers, single matrices and stacks; o_to_pgl round trip (known finding reported as KNOWN-FINDING)")
 _add("C12", "bounded symbolic verification of invariance under independent per-unit homogeneous rescalings (symbolic non-zero factors of either sign): model coordinates, distances, segment ideal endpoints, circle centre/radius, tangent direction against an independent reference, images under transformations, polygon edges, origin_to targets; n<=2 (quick) / n<=3 (thorough).  The number-packaging half of C12 is outside this technique (stated in the evidence)")
 _CT = "CrossHair (z3-backed symbolic execution of the real Python automata code) per configuration slice, 16 processes; counterexamples replayed in plain Python"
 _CN = "tables are enumerated configurations; CrossHair decides over the symbolic arguments only and 'Confirmed over all paths' is claimed only when it reports exhaustion; reference models in harness/chbodies.py are trusted"
@@ -31,10 +31,10 @@ _add("C07", "bounded model checking: per Coxeter matrix (125 rank-3 + rank-2/4 f
 _add("C11", "bounded symbolic verification: operation histories of depth 1-2 (3 for projective polygons in thorough) over {copy, reconstruct, apply, reshape, flatten, index, setitem, stack, combine, astype} on projective/hyperbolic polygons, segments, tangent vectors with symbolic entries; stored derived data vs recomputed (projectively); read-only queries leave objects and caller arrays unchanged")
 _add("C04", "bounded symbolic verification over enumerated composite-shape configurations (rank 0-2, sizes 1-2 quick; sizes up to 3 and rank 3 thorough) with all entries distinct symbols: matrix_product, apply in three broadcast modes, vectorised point / segment / polygon / SL(2) operations and restructuring compared unit by unit")
 _add("C08", "bounded symbolic verification in exact algebraic arithmetic (cos(pi/m) as algebraic atoms): involution, (s_i s_j)^m = 1, exact order, cosine-form preservation, reflection formula, canonical = dual, construction routes / naming agree, Tits-Vinberg and non-symmetric Cartan parameters, for rank 2 (labels 2..12, inf), 130 rank-3 triples and rank 4-5 samples (quick); hyperbolic_rep and triangle angles are outside (stated)")
-_add("C13", "bounded symbolic verification in H^2: origin_to targets, point_along with a symbolic signed distance t = ln E (exact side, distance and geodesic), reaching q along the unit tangent, the hyperbolic law of cosines for TangentVector.angle (arccos/arctan carried by cosine and sine), regular polygons with 3, 4, 6 sides (5, 7, 8 attempted in thorough) with symbolic interior angle and exact cos(pi/n)")
+_add("C13", "bounded symbolic verification in H^2 (+ an H^3 square): origin_to and TangentVector.origin_to targets, point_along with a symbolic signed distance t = ln E (exact side, distance and geodesic), reaching q along the unit tangent, TangentVector.angle for unit and general vectors against the law of cosines (arccos/arctan carried by cosine and sine), regular polygons with 3, 4, 6 sides (5, 7, 8 attempted in thorough) with symbolic interior angle and exact cos(pi/n)")
 _add("C18", "bounded symbolic verification of indefinite_orthogonalize (signatures p+q<=3), find_isometry (null-space stub), diagonalize_form (spectral eigh stub, n<=3), svd_kernel (SVD stub, rank patterns up to 3x3), circle_through / sphere_through and the arc-ordering helpers on arctan2 angles modelled as plane directions")
 _add("C14", "bounded symbolic verification of circle / sphere parameters in both conformal models: endpoints on the reported circle, orthogonality to the boundary, reported angles (arctan2 values as plane directions) point to the endpoints and bound the arc inside the model, degrees flag, enum vs string model, horospheres, subspace spheres (known finding for planes in H^3 reported as KNOWN-FINDING)")
-_add("C15", "bounded symbolic verification with a nondeterministic eigen-decomposition stub (arbitrary eigenvalue order, arbitrary eigenvector scale): loxodromic fixed points (attracting first, ideal, fixed) and elliptic fixed points for both homogeneous representative signs, rejection of non-reflections; H^2; reflection_across / from_reflection round trip only attempted in thorough")
+_add("C15", "bounded symbolic verification with a nondeterministic eigen-decomposition stub (arbitrary eigenvalue order, arbitrary eigenvector scale; per element for composites): loxodromic and elliptic fixed points for both representative signs, composite fixed points, reflection_across (incl. a moved wall), from_reflection round trip, rejection of non-reflections; H^2")
 _add("C20", "PARTIAL: bounded symbolic verification of the bounded-disk part only: spherical/projective conversion and stereographic projection, CP1Disk centre/radius, images of disks under symbolic affine Moebius maps, contains/intersects for bounded disks (elementwise, pairwise); Fubini-Study construction, complements and disks containing infinity are outside this technique (stated)")
 NA = {"C19": "not applicable to solver-based checking: drawing casts to float64 and hands the data to matplotlib (compiled spline / arc code, isnan and 1e-4 thresholds on Bezier vertices); no symbolic value survives the cast and no installed SMT theory covers the arctan2/cos/sin spline tables. The geometric content drawing relies on (circle parameters, arc selection) is checked under C14 / C18. See DESIGN.md section 5."}
 def main():
